@@ -23,7 +23,7 @@ func genCase(t *rapid.T) Case {
 	k := rapid.IntRange(1, 3).Draw(t, "k")
 	sc := world.Script{K: k, MaxAsync: rapid.SampledFrom([]int{0, 0, 1}).Draw(t, "maxasync")}
 	n := rapid.IntRange(2, 24).Draw(t, "nsteps")
-	ops := []string{"publish", "announce", "announce", "sync", "sync", "hold", "hold", "open", "register", "cancel", "read", "regcancel"}
+	ops := []string{"publish", "announce", "announce", "sync", "sync", "hold", "hold", "open", "register", "cancel", "read", "regcancel", "tick", "badannounce", "entries"}
 	for i := 0; i < n; i++ {
 		st := world.Step{Op: rapid.SampledFrom(ops).Draw(t, "op"), P: rapid.IntRange(0, k-1).Draw(t, "p"), N: rapid.IntRange(1, 3).Draw(t, "n"), L: rapid.IntRange(0, 4).Draw(t, "l")}
 		sc.Steps = append(sc.Steps, st)
@@ -229,7 +229,7 @@ func render(c Case) string {
 
 func TestC15_Scripts(t *testing.T) {
 	pbt.Run(t, pbt.Config{Prop: "C15", Unit: "TestC15_Scripts", TrackCurrent: true,
-		Rule: "scripts over 1..3 publishers, one real subscriber and 0..5 listeners: publish, announce, explicit sync, hold / open a gate (so that explicit and announce-triggered syncs are parked at any request), register / cancel / read listeners; Close is called 1..3 times (concurrently when the first has not returned) at a drawn point; the remaining steps and drawn post-close calls (SyncAdChain, SyncEntries, Announce, OnSyncFinished, GetLatestSync, RemoveHandler, Close) follow; then all gates open and exact quiescence is reached; oracle: every call returned (none durably blocked at quiescence); explicit syncs that were running when Close was called finished successfully; from the moment the first Close returned no hook call, store write or notification happened (world counters frozen, sampled after every step); every listener channel is closed; Close returns nil every time; sync calls issued after Close returned fail; no panic; the bubble drains to zero goroutines. Non-trivial: Close overlapped a held sync, >= 2 concurrent closers, or a call after Close returned; distinct by case.",
+		Rule: "scripts over 1..3 publishers, one real subscriber and 0..5 listeners: publish, announce, announce with unusable sender addresses, explicit sync, explicit entries sync, let the virtual clock pass the idle-handler TTL (also while a sync is parked), hold / open a gate (so that explicit and announce-triggered syncs are parked at any request), register / cancel / read listeners; Close is called 1..3 times (concurrently when the first has not returned) at a drawn point; the remaining steps and drawn post-close calls (SyncAdChain, SyncEntries, Announce, OnSyncFinished, GetLatestSync, RemoveHandler, Close) follow; then all gates open and exact quiescence is reached; oracle: every call returned (none durably blocked at quiescence); explicit syncs that were running when Close was called finished successfully; from the moment the first Close returned no hook call, store write or notification happened (world counters frozen, sampled after every step); every listener channel is closed; Close returns nil every time; sync calls issued after Close returned fail; no panic; the bubble drains to zero goroutines. Non-trivial: Close overlapped a held sync, >= 2 concurrent closers, or a call after Close returned; distinct by case.",
 		Assumptions: []string{"requests of a cancelled sync may still reach the server after Close (net/http write loop); request arrivals are not part of the post-close silence oracle"},
 	}, genCase, runCase(t))
 }
